@@ -210,10 +210,12 @@ func (m *Machine) script(o *Obligation, negate bool) (string, int, map[string]bo
 	var sb strings.Builder
 	syms := map[string]bool{}
 	var walk func(c *Cond)
+	seenC := map[*Cond]bool{}
 	walk = func(c *Cond) {
-		if c == nil {
+		if c == nil || seenC[c] {
 			return
 		}
+		seenC[c] = true
 		for _, l := range []*Lin{c.a, c.b} {
 			if l != nil {
 				for s := range l.k {
@@ -964,10 +966,12 @@ func sliceDefs(o *Obligation) []*Cond {
 	}
 	symsOf := func(c *Cond, into map[string]bool) {
 		var walk func(c *Cond)
+		seenC := map[*Cond]bool{}
 		walk = func(c *Cond) {
-			if c == nil {
+			if c == nil || seenC[c] {
 				return
 			}
+			seenC[c] = true
 			for _, l := range []*Lin{c.a, c.b} {
 				if l != nil {
 					for s := range l.k {
